@@ -85,6 +85,13 @@ CHECKS = {
    text="Fixed-IP records keep their allocation set, are only reaped when no allocation says keep (Never = forever, TTL since last seen), are re-bound to the recreated pod; the leak collector only touches ENIs with both cluster tags, older than the grace period and unreferenced.",
    design_ref="DESIGN.md 4.4, 5 (C11), 11.6",
    note="Virtual time by data (stored timestamps shifted), 1 s slack for second-granular time stamps; known finding D18."),
+
+ "C13": dict(
+   technique="TLA+ specs Fib.tla (Linux policy-routing model: rules by priority, longest-prefix tables, fall-through) + Datapath.tla (Setup/Teardown whose effect is bound from the trace); level 1: real generate*Cfg* functions of all four datapaths on TLC-simulated configurations, judged by TLC with the Fib Lookups; level 2: real PolicyRoute/ExclusiveENI Setup/Teardown in a private network namespace, kernel state dumped after every step and validated by TLC",
+   category="model_checking",
+   text="Delivery to the pod interface, egress via the owning ENI and its gateway, exactly one default route per enabled family, nothing for a disabled family, teardown removes all and only the pod's state - as guards of the Setup/Teardown actions evaluated on what the implementation actually produced (nic.Conf values at level 1, kernel rules/routes/links at level 2).",
+   design_ref="DESIGN.md 4.6, 5 (C13), 11.6",
+   note="The sandbox kernel lacks ipvlan, 802.1q vlan, prio qdisc and u32/vlan tc actions: ipvlan/vlan datapaths and tc parts are decided at level 1 only; the Fib model itself is compared with the kernel's route lookups in the thorough tier; needs root for unshare -n."),
 }
 
 NA_REASON = "not built yet in this round of work; see DESIGN.md section 10 (build order) - the property is planned to be decided by the TLA+ pipeline"
